@@ -395,6 +395,11 @@ func (a *Act) unop(ctx *blockCtx, x *ssa.UnOp) {
 	v := a.val(x.X)
 	switch x.Op {
 	case token.MUL:
+		if gl, ok := x.X.(*ssa.Global); ok && gl.Name() == "init$guard" {
+			// a package initialiser is verified for its first (only effective) execution
+			a.set(x, boolT("false"))
+			return
+		}
 		a.checkDeref(ctx, v, x.Pos())
 		r := g.load(ctx.st, v)
 		// name big loaded struct values
